@@ -17,20 +17,28 @@ from fractions import Fraction as Fr
 import common as C
 from props.base import NAN, Prop, chunks, dec, decs, enc, encs
 
-QUANTI_M = ("kruskal", "R", "distance", "iqr")
+QUANTI_M = ("kruskal", "R", "distance", "iqr", "zscore", "pearson", "spearman")
+# pearson_measure / spearman_measure of /repo HEAD compare scipy's result OBJECT with the threshold
+# (`r < thresh_pearson`): TypeError on every call.  The model follows the code (the call raises).
+RAISES_ON_HEAD = ("pearson", "spearman")
 QUALI_M = ("chi2", "cramerv", "tschuprowt", "rkruskal")
 COLNAME = {"kruskal": "kruskal_measure", "R": "R_measure", "distance": "distance_measure",
            "chi2": "chi2_statistic", "cramerv": "cramerv_measure",
-           "tschuprowt": "tschuprowt_measure", "rkruskal": "kruskal_measure", "iqr": "pct_iqr"}
+           "tschuprowt": "tschuprowt_measure", "rkruskal": "kruskal_measure", "iqr": "pct_iqr",
+           "zscore": "pct_zscore", "pearson": "pearson_measure", "spearman": "spearman_measure"}
 THRESH_KW = {"kruskal": "thresh_kruskal", "R": "thresh_R", "distance": "thresh_distance",
              "chi2": "thresh_chi2", "cramerv": "thresh_cramerv", "tschuprowt": "thresh_tschuprowt",
-             "rkruskal": "thresh_kruskal", "iqr": "thresh_iqr"}
-THRESH_DEFAULT = {"iqr": 1.0}
-GATES = ("iqr",)   # outlier screening: pct_* < thresh_*, not an association measure
+             "rkruskal": "thresh_kruskal", "iqr": "thresh_iqr", "zscore": "thresh_zscore",
+             "pearson": "thresh_pearson", "spearman": "thresh_spearman"}
+THRESH_DEFAULT = {"iqr": 1.0, "zscore": 1.0}
+GATES = ("iqr", "zscore")   # outlier screening: pct_* < thresh_*, not an association measure
+GATE_COLUMNS = {"iqr": 4, "zscore": 5}   # pct_iqr q1 median q3 | pct_zscore min max mean std
 RANKING = {"kruskal": True, "R": True, "distance": True, "chi2": False, "cramerv": True,
-           "tschuprowt": True, "rkruskal": True, "iqr": False}
+           "tschuprowt": True, "rkruskal": True, "iqr": False, "zscore": False, "pearson": True,
+           "spearman": True}
 FALSY_NAN = {"kruskal": False, "R": True, "distance": True, "chi2": False, "cramerv": False,
-             "tschuprowt": False, "rkruskal": False, "iqr": False}
+             "tschuprowt": False, "rkruskal": False, "iqr": False, "zscore": False, "pearson": False,
+             "spearman": False}
 TOL = 1e-9
 BIG = Fr(10 ** 40)
 
@@ -207,6 +215,18 @@ def iqr_exact(xs, method="linear"):
     return Fr(sum(1 for v in xs if isnan(v) or not lo <= fr(v) <= hi), len(xs))
 
 
+def zscore_exact(xs):
+    """share of rows with |x - mean| / std > 3 (sample std, missing rows are not outliers);
+    None when fewer than two observed values (std is NaN: the row is dropped by thresh_filter)"""
+    vals = [fr(v) for v in xs if not isnan(v)]
+    m = len(vals)
+    if m < 2:
+        return None
+    mean = sum(vals, Fr(0)) / m
+    var = sum((v - mean) ** 2 for v in vals) / (m - 1)
+    return Fr(sum(1 for v in vals if var > 0 and (v - mean) ** 2 > 9 * var), len(xs))
+
+
 def sgn_sq(x):
     x = Fr(x)
     return x * x if x >= 0 else -(x * x)
@@ -260,6 +280,18 @@ def measure_exact(kind, xs, ys, y_own=None, x_in_y_order=None):
         return {"model": v, "spec": None if sp == "err" else sp}
     if kind == "iqr":
         return {"model": iqr_exact(xs), "spec": None}
+    if kind == "zscore":
+        return {"model": zscore_exact(xs), "spec": None}
+    if kind in ("pearson", "spearman"):
+        a, b = complete_pairs(xs, ys)
+        a, b = [fr(v) for v in a], [fr(v) for v in b]
+        if kind == "spearman":
+            a, b = midranks(a), midranks(b)
+        p = pearson_exact(a, b)
+        spec = None if p is None else p[1]
+        if kind in RAISES_ON_HEAD:
+            return {"model": "err", "spec": spec}
+        return {"model": None if p is None else p[0] * p[1], "spec": spec}
     if kind == "distance":
         a, b = complete_pairs(xs, ys)
         p = pearson_exact([fr(v) for v in a], [fr(v) for v in b])
@@ -289,8 +321,10 @@ def measure_exact(kind, xs, ys, y_own=None, x_in_y_order=None):
 def thresh_keys(kind, t):
     """(model threshold key, spec threshold key) for a user threshold t (float, exact)"""
     t = Fr(t)
-    if kind in ("kruskal", "rkruskal", "chi2", "iqr"):
+    if kind in ("kruskal", "rkruskal", "chi2", "iqr", "zscore"):
         return t, t
+    if kind in ("pearson", "spearman"):
+        return sgn_sq(t), sgn_sq(t)
     if kind in ("R", "cramerv"):
         return sgn_sq(t), sgn_sq(t)
     if kind == "tschuprowt":
@@ -302,8 +336,10 @@ def thresh_keys(kind, t):
 
 def value_as_float(kind, key):
     """the float the implementation should report for an exact model key"""
-    if kind in ("kruskal", "rkruskal", "chi2", "iqr"):
+    if kind in ("kruskal", "rkruskal", "chi2", "iqr", "zscore"):
         return float(key)
+    if kind in ("pearson", "spearman"):
+        return math.copysign(math.sqrt(abs(float(key))), float(key))
     if kind in ("R", "cramerv"):
         return math.sqrt(float(key))
     if kind == "tschuprowt":
@@ -328,6 +364,14 @@ def filter_exact(kind, xs, ys):
     raise ValueError(kind)
 
 
+def rank_equivalent(col):
+    if not any(isinstance(v, float) and math.isinf(v) for v in col):
+        return col
+    fin = [v for v in col if not isnan(v) and not math.isinf(v)]
+    hi, lo = (max(fin) + 1, min(fin) - 1) if fin else (1.0, -1.0)
+    return [(hi if v > 0 else lo) if isinstance(v, float) and math.isinf(v) else v for v in col]
+
+
 def lcm_den(vals):
     d = 1
     for v in vals:
@@ -350,7 +394,13 @@ def build_tables(case, out):
         ms, fs, feats = case_lists(case, dtype)
         if not feats:
             continue
-        cols = {name: decs(col) for name, col in feats}
+        raw_cols = {name: decs(col) for name, col in feats}
+        # +-inf cells (quantitative features, rank-based measures only: generator): for the measures
+        # they are the largest / smallest value (any finite stand-in beyond the observed range gives
+        # the same ranks); pandas' corr masks them with isfinite: missing for the filters
+        cols = {name: rank_equivalent(c) for name, c in raw_cols.items()}
+        fcols = {name: [NAN if isinstance(v, float) and math.isinf(v) else v for v in c]
+                 for name, c in raw_cols.items()}
         order = (out.get("order") or {}).get(dtype) if isinstance(out, dict) else None
         names = [f for f in order if f in cols] if order else [name for name, _ in feats]
         names += [name for name, _ in feats if name not in names]
@@ -407,7 +457,7 @@ def build_tables(case, out):
                 for j, g in enumerate(names):
                     if i == j:
                         continue
-                    a, _ = filter_exact(k, cols[f], cols[g])
+                    a, _ = filter_exact(k, fcols[f], fcols[g])
                     if a != tk and tk >= 0 and abs(float(a) ** (1 / p) - float(tcorr)) <= TOL:
                         a = tk  # equal to thresh_corr up to the rounding of the user's float: boundary
                     mat[(f, g)] = a
@@ -709,11 +759,12 @@ def make_selector(case):
     from AutoCarver.selectors import ClassificationSelector, RegressionSelector
     from AutoCarver.selectors.filters import cramerv_filter, pearson_filter, spearman_filter, tschuprowt_filter
     from AutoCarver.selectors.measures import (R_measure, chi2_measure, cramerv_measure, distance_measure,
-                                               iqr_measure, kruskal_measure, tschuprowt_measure)
+                                               iqr_measure, kruskal_measure, tschuprowt_measure, zscore_measure)
+    from AutoCarver.selectors.measures.quantitative_measures import pearson_measure, spearman_measure
     from AutoCarver.selectors.measures.base_measures import reverse_xy
 
     M = {"kruskal": kruskal_measure, "R": R_measure, "distance": distance_measure, "chi2": chi2_measure,
-         "iqr": iqr_measure,
+         "iqr": iqr_measure, "zscore": zscore_measure, "pearson": pearson_measure, "spearman": spearman_measure,
          "cramerv": cramerv_measure, "tschuprowt": tschuprowt_measure}
     F = {"spearman": spearman_filter, "pearson": pearson_filter, "cramerv": cramerv_filter,
          "tschuprowt": tschuprowt_filter}
@@ -1018,10 +1069,12 @@ def gen_case(rng, kind=None):
         else:
             qm = rng.choice([["kruskal", "R"], ["R", "kruskal"]])
             lm = rng.choice([["cramerv", "tschuprowt"], ["chi2", "tschuprowt"], ["tschuprowt"]])
-        if qm and qm[0] in ("kruskal", "R") and rng.random() < 0.25:
-            qm = ["iqr"] + qm
-            if rng.random() < 0.7:
-                kw["thresh_iqr"] = rng.choice([1 / 16, 1 / 8, 1 / 4, 1 / 2])
+        if qm and qm[0] in ("kruskal", "R") and rng.random() < 0.3:
+            gate = rng.choice([["iqr"], ["zscore"], ["zscore", "iqr"]])
+            qm = gate + qm
+            for g_ in gate:
+                if rng.random() < 0.7:
+                    kw["thresh_" + g_] = rng.choice([1 / 16, 1 / 8, 1 / 4, 1 / 2])
         if rng.random() < 0.5:
             for k, vals in (("thresh_kruskal", [3.0, 1e9, 0.5]), ("thresh_R", [0.3, 5.0]),
                             ("thresh_chi2", [4.0, 1e9]), ("thresh_cramerv", [0.3, 5.0]),
@@ -1035,6 +1088,14 @@ def gen_case(rng, kind=None):
     else:
         if r < 0.3:
             qm = ["distance"]
+        elif r < 0.5:  # user-supplied measures of a RegressionSelector
+            qm = rng.choice([["zscore", "distance"], ["zscore", "R"], ["iqr", "R"], ["R"], ["kruskal"],
+                             ["pearson"], ["spearman"], ["iqr", "spearman"], ["zscore", "pearson"]])
+            for g_ in ("iqr", "zscore"):
+                if g_ in qm and rng.random() < 0.6:
+                    kw["thresh_" + g_] = rng.choice([1 / 16, 1 / 8, 1 / 4])
+            if rng.random() < 0.3:
+                kw[rng.choice(["thresh_pearson", "thresh_spearman", "thresh_R"])] = rng.choice([0.25, 0.5])
         if rng.random() < 0.3:
             kw["thresh_distance"] = rng.choice([1.0, 2.5, 0.5])
         if rng.random() < 0.2:
@@ -1048,6 +1109,14 @@ def gen_case(rng, kind=None):
         kw["thresh_nan"] = rng.choice([0.5, 0.25])
     if rng.random() < 0.15:
         kw["thresh_mode"] = rng.choice([0.75, 0.5])
+    if qm and "zscore" in qm:
+        # zscore_measure adds a `std` column: NaN (row dropped) with a single observed value; the
+        # model has one cell per measure, so every feature has no or at least two observed values
+        for c in quanti:
+            obs = [i for i, v in enumerate(c) if not isnan(v)]
+            if len(obs) == 1:
+                j = (obs[0] + 1) % len(c)
+                c[j] = c[obs[0]]
     nf = nq + nl
     n_best = rng.choice([1, 1, 2, 2, 3, max(1, nf // 2), nf, nf + 1])
     if rng.random() < 0.03:
@@ -1067,8 +1136,8 @@ def table_columns(t):
     for j, k in enumerate(t["ms"]):
         if not any(c[j] != "missing" for c in cells.values() if len(c) > j):
             continue
-        if k == "iqr":
-            cols += 4
+        if k in GATE_COLUMNS:
+            cols += GATE_COLUMNS[k]
         elif k in ("chi2", "cramerv", "tschuprowt"):
             cols += (0 if chi2_seen else 1) + (0 if k == "chi2" else 1)
             chi2_seen = True
@@ -1115,6 +1184,39 @@ def gen_tiny_case(rng):
                 return case
             n = cols
     return case
+
+
+def gen_inf_case(rng):
+    """quantitative features with +inf / -inf cells whose infinite rows carry the association
+    (ClassificationSelector, rank-based kruskal_measure; spearman filter or none: pandas masks the
+    infinite cells).  R / distance / iqr / zscore are NaN or ill-defined with infinite values on
+    /repo HEAD and are not generated here.  The feature with infinite cells is the first one."""
+    n = rng.choice([16, 20, 30])
+    k = rng.choice([2, 2, 3])
+    y = [i % k for i in range(n)]
+    rng.shuffle(y)
+    cols = []
+    f0 = [float(rng.randint(0, 6)) for _ in y]
+    top = [i for i, v in enumerate(y) if v == k - 1]
+    bot = [i for i, v in enumerate(y) if v == 0]
+    how = rng.choice(["pos", "neg", "both", "both"])
+    if how in ("pos", "both"):
+        for i in rng.sample(top, min(len(top), rng.choice([2, 3, 4]))):
+            f0[i] = math.inf
+    if how in ("neg", "both"):
+        for i in rng.sample(bot, min(len(bot), rng.choice([1, 2, 4]))):
+            f0[i] = -math.inf
+    cols.append(f0)
+    for _ in range(rng.choice([2, 3])):
+        w = rng.choice([4, 6, 9])
+        c = [float(rng.choice([1, 2]) * v + rng.randint(0, w)) for v in y]
+        if rng.random() < 0.3:
+            c[rng.randrange(n)] = rng.choice([math.inf, -math.inf])
+        cols.append(c)
+    quali = [["ab"[(v + (rng.random() < 0.3)) % 2] for v in y]] if rng.random() < 0.3 else []
+    kw = {} if rng.random() < 0.5 else {"thresh_corr": rng.choice([0.9, 0.7])}
+    return mk_case("classification", y, cols, quali, rng.choice([1, 1, 2, 3]), rng.choice([None, ["kruskal"]]),
+                   None, rng.choice([None, ["spearman"], []]), None, kw)
 
 
 def gen_boundary_case(rng):
@@ -1431,7 +1533,8 @@ class C14(Prop):
                 + [gen_two_measure_case(rng) for _ in range(ns)]
                 + [gen_quali_filter_case(rng) for _ in range(ns)]
                 + [gen_iqr_case(rng) for _ in range(ns)]
-                + [gen_tiny_case(rng) for _ in range(12 if tier == "quick" else 120)])
+                + [gen_tiny_case(rng) for _ in range(12 if tier == "quick" else 120)]
+                + [gen_inf_case(rng) for _ in range(12 if tier == "quick" else 120)])
 
     def search_cases(self, rng, neighbours, rnd):
         return [gen_case(rng) for _ in range(60)] + [gen_two_measure_case(rng) for _ in range(10)]
@@ -1473,7 +1576,9 @@ class C14(Prop):
             ms = tabs[d]["ms"] if d in tabs else []
             if tag == "error" and out["err"] == "internal":
                 msg = out.get("err_msg") or ""
-                if "UnboundLocalError" in msg and any(
+                if "PearsonRResult" in msg or "SignificanceResult" in msg:
+                    sig = "pearson_spearman_measure_compares_result_object"
+                elif "UnboundLocalError" in msg and any(
                         sum(1 for k in t["ms"] if k in ("chi2", "cramerv", "tschuprowt")) >= 2 for t in tabs.values()):
                     sig = "second_chi2_based_measure_unboundlocal"
                 elif any(len(t["filters"]) >= 2 for t in tabs.values()):
@@ -1484,7 +1589,7 @@ class C14(Prop):
                 # the +-inf feature is returned (first): sortedness fails and it takes an n_best slot
                 sig = "degenerate_kruskal_inf_is_ranked"
             elif tag in ("sorted", "maximal", "count"):
-                if case["task"] == "regression" and d == "float" and ms == ["distance"]:
+                if case["task"] == "regression" and d == "float" and [k for k in ms if k not in GATES] == ["distance"]:
                     sig = "regression_default_distance_measure_sign"
                 elif len([k for k in ms if k not in GATES]) >= 2 or ms == ["chi2"]:
                     sig = "second_measure_never_computed"
